@@ -402,6 +402,21 @@ def rule_merge_and_dead(ctx):
                     f"`{norm(raw[0], 80)}` sums raw measurement values per group: two measurements of the same quantity count twice"), fi.loc(lp))
         if k < minimum:
             ctx.fail(f"{fq}: only {k} measurement loops found (confirmed: {minimum})")
+    RI = "I-BASE"
+    ctx.rule(RI, "current measurements are converted to per unit with the base current of the bus they are taken at: base_i_ka = baseMVA / "
+                 "vn_kv of that bus (net.bus.vn_kv), the base of the ppci - not the rated voltage of the measured transformer winding")
+    fm = ctx.repo.try_func(f"{PPC}:_add_measurements_to_ppci")
+    if fm is None:
+        ctx.fail("anchor vanished: _add_measurements_to_ppci")
+    else:
+        st = next((x for x in ast.walk(fm.node) if isinstance(x, ast.Assign) and ast.unparse(x.targets[0]) == "base_i_ka"), None)
+        side = next((x for x in ast.walk(fm.node) if isinstance(x, ast.Assign) and ast.unparse(x.targets[0]).replace('"', "'") == "i_meas['side']"), None)
+        ok = st is not None and "net.bus.vn_kv" in ast.unparse(st.value) and "baseMVA" in ast.unparse(st.value) and \
+            (side is None or not any(k in ast.unparse(side.value) for k in ("vn_hv_kv", "vn_lv_kv", "vn_mv_kv", "'vn_'", '"vn_"')))
+        ctx.ob(RI, f"{PPC}::_add_measurements_to_ppci::base-current", ok,
+               f"base_i_ka = {ast.unparse(st.value)[:80] if st is not None else '?'}" if ok else
+               "the base current of i measurements is not derived from net.bus.vn_kv of the measured bus (rated winding voltages differ from the "
+               "bus voltage level whenever a transformer is not rated exactly at the nominal voltages)", fm.loc(st) if st is not None else fm.loc())
     RD = "DEAD-STORE"
     ctx.rule(RD, "no function of the estimation package assigns a local that is never read (a clamp, filter or copy whose result is lost "
                  "while the unmodified object is used)")
@@ -439,6 +454,7 @@ def variants(repo):
     p2 = "pandapower/estimation/algorithm/base.py"
     p3 = "pandapower/estimation/ppc_conversion.py"
     return [
+        Variant("i measurements related to the rated winding voltage", p3, in_function("_add_measurements_to_ppci", replace_once('base_i_ka = ppci["baseMVA"] / i_meas.side.map(net.bus.vn_kv)', 'base_i_ka = ppci["baseMVA"] / i_meas.side.map(net.trafo.vn_hv_kv)')), "I-BASE"),
         Variant("std_dev floor assigned to an unused local", p2, replace_once("eppci.r_cov[eppci.r_cov<(10**(-5))] = 10**(-5)", "r_cov = np.maximum(eppci.r_cov, 10**(-5))"), "DEAD-STORE"),
         Variant("bus injections summed without merging duplicates", p3, in_function("_add_measurements_to_bus", lambda s: s.replace('        this_meas = _calculate_weighted_measurements(this_meas, "element")\n        this_meas["ppci_index"] = this_meas.index.map(lambda x: map_bus[int(x)])\n', '        this_meas["weighted_measurement"] = this_meas["value"]\n        this_meas["merged_weight"] = this_meas["std_dev"]\n', 1)), "MEAS-MERGE"),
         Variant("isin->in1d", p, replace_once("np.isin(", "np.in1d("), "np.in1d"),
